@@ -50,11 +50,12 @@ var mutations = map[string]mutation{
 	"c08-http-type-panic":  one("C08", "ttlv/encoding_json.go", "\t// Unknown type name: report the invalid type 0, which no reading method\n\t// accepts, so that the caller gets an encoding error instead of a panic.\n\treturn Type(0)", "\tpanic(\"Invalid type\")"),
 	"c08-json-goquote":     one("C08", "ttlv/encoding_json.go", "\t\treturn appendJSONString(b, str)", "\t\treturn strconv.AppendQuote(b, str)"),
 	// C13
-	"c13-fallback":            one("C13", "kmipclient/client.go", "if !slices.Contains(c.supportedVersions, kmip.V1_0) {", "if false {"),
-	"c13-first-listed":        one("C13", "kmipclient/client.go", "if best == nil || ttlv.CompareVersions(v, *best) > 0 {", "if best == nil {"),
-	"c13-enforced-negotiates": one("C13", "kmipclient/client.go", "\tif c.version != nil {\n\t\treturn nil\n\t}\n\tmsg := kmip.NewRequestMessage(kmip.V1_1", "\tmsg := kmip.NewRequestMessage(kmip.V1_1"),
-	"c13-cluster-nil-timeout": one("C13", "kmipclient/dialer_cluster.go", "\t\tretryTimeout := 5 * time.Second\n\t\topts.retryTimeout = &retryTimeout\n", "\t\t*opts.retryTimeout = 5 * time.Second\n"),
-	"c11-cluster-date-nil":    one("C11", "kmipclient/dialer_cluster.go", "servers[0].lastError = time.Time{}", "servers[0].lastError = time.Date(0, 0, 0, 0, 0, 0, 0, nil)"),
+	"c13-fallback":                one("C13", "kmipclient/client.go", "if !slices.Contains(c.supportedVersions, kmip.V1_0) {", "if false {"),
+	"c13-first-listed":            one("C13", "kmipclient/client.go", "if best == nil || ttlv.CompareVersions(v, *best) > 0 {", "if best == nil {"),
+	"c13-enforced-negotiates":     one("C13", "kmipclient/client.go", "\tif c.version != nil {\n\t\treturn nil\n\t}\n\tmsg := kmip.NewRequestMessage(kmip.V1_1", "\tmsg := kmip.NewRequestMessage(kmip.V1_1"),
+	"c13-cluster-nil-timeout":     one("C13", "kmipclient/dialer_cluster.go", "\t\tretryTimeout := 5 * time.Second\n\t\topts.retryTimeout = &retryTimeout\n", "\t\t*opts.retryTimeout = 5 * time.Second\n"),
+	"c11-report-before-terminate": one("C11", "kmipclient/conn.go", "\t\t\t\t_ = c.terminate(err)\n\t\t\t\treq.err <- err\n\t\t\t\tclose(req.err)\n\t\t\t\treturn", "\t\t\t\treq.err <- err\n\t\t\t\tclose(req.err)\n\t\t\t\t_ = c.terminate(err)\n\t\t\t\treturn"),
+	"c11-cluster-date-nil":        one("C11", "kmipclient/dialer_cluster.go", "servers[0].lastError = time.Time{}", "servers[0].lastError = time.Date(0, 0, 0, 0, 0, 0, 0, nil)"),
 	"c11-default-dialer-captures-ctx": {"C11", []edit{
 		{"kmipclient/client.go", "\tdialer := opts.dialer\n\tif dialer == nil {\n\t\tdialer = func(ctx context.Context) (net.Conn, error) {\n\t\t\ttlsDialer := tls.Dialer{\n\t\t\t\tConfig: tlsCfg,\n\t\t\t}\n\t\t\treturn tlsDialer.DialContext(ctx, \"tcp\", addr)", "\tdialer := opts.dialer\n\tif dialer == nil {\n\t\tdialCtx0 := ctx\n\t\tdialer = func(ctx context.Context) (net.Conn, error) {\n\t\t\ttlsDialer := tls.Dialer{\n\t\t\t\tConfig: tlsCfg,\n\t\t\t}\n\t\t\treturn tlsDialer.DialContext(dialCtx0, \"tcp\", addr)"},
 	}},
